@@ -349,6 +349,13 @@ func (ch c18) runCase(c *core.Ctx, env *hs.Env, L int, rng *core.Rng, idx int) {
 			n := L + 1 + rng.Intn(2*L)
 			in = pg.Raw(core.Pick(rng, []byte{'Q', 'P', 'B', 'd'}), rng.Bytes(n))
 			in = append(in, pg.Sync()...)
+			if rng.Bool() {
+				// the oversized message arrives in the same segment as a query whose text is retained
+				q := text(fmt.Sprintf("before-oversized%d.%d:", idx, m), 12+rng.Intn(300))
+				st.sentQ[q] = true
+				in = append(pg.Query(q), in...)
+				c.Count("oversized_pipelined_behind_a_retained_query", 1)
+			}
 			c.Count("oversized_skipped", 1)
 			shape += "O "
 			crossing++
